@@ -287,6 +287,57 @@ fn iterator_case(n: usize, k: usize, gap: Option<usize>, rep: &mut Report) {
     rep.distinct(vmon::rng::mix(99_000 + n as u64 * 100 + k as u64, gap.map(|g| g + 1).unwrap_or(0) as u64));
 }
 
+
+/// consume the wrapper through iterator adapters (nth/skip/step_by/last/count/take/...): the
+/// observable result and the fate of every produced item must match the same adapter applied
+/// to the source directly
+fn adapter_case(n: usize, which: usize, k: usize, rep: &mut Report) {
+    let mark = tracked::mark();
+    let names = ["nth", "skip+collect", "step_by", "last", "count", "take+collect", "nth twice", "skip_while", "fold", "zip"];
+    let tag = format!("n={} adapter={} k={}", n, names[which], k);
+    fn run<I: Iterator<Item = Item>>(mut it: I, which: usize, k: usize) -> (Vec<usize>, Vec<Item>) {
+        let mut kept: Vec<Item> = vec![];
+        match which {
+            0 => { if let Some(x) = it.nth(k) { kept.push(x); } kept.extend(it); }
+            1 => kept.extend(it.skip(k)),
+            2 => kept.extend(it.step_by(k + 1)),
+            3 => kept.extend(it.last()),
+            4 => { let c = it.count(); return (vec![c], vec![]); }
+            5 => kept.extend(it.take(k)),
+            6 => { kept.extend(it.nth(k)); kept.extend(it.nth(k)); kept.extend(it); }
+            7 => kept.extend(it.skip_while(|i| i.seq < k)),
+            8 => { let c = it.fold(0usize, |a, i| a * 31 + i.seq + 1); return (vec![c], vec![]); }
+            _ => kept.extend(it.zip(0..k).map(|(a, _)| a)),
+        }
+        (kept.iter().map(|i| i.seq).collect(), kept)
+    }
+    let mut src = Gappy { next: 0, end: n, gap: None, gapped: false, made: vec![] };
+    let reference = Gappy { next: 0, end: n, gap: None, gapped: false, made: vec![] };
+    let (got, kept) = run(CIterator::new(&mut src), which, k);
+    let (want, kept_ref) = run(reference, which, k);
+    if got != want {
+        rep.violation("C15:iterator-sequence", &format!("{}: through the wrapper {:?}, directly {:?}", tag, got, want), &tag);
+    }
+    let kept_ids: Vec<u64> = kept.iter().map(|i| i.t.touch()).collect();
+    for id in &src.made {
+        let d = tracked::drops_of(*id);
+        let want_d = if kept_ids.contains(id) { 0 } else { 1 };
+        if d != want_d {
+            rep.violation("C15:iterator-items", &format!("{}: item {} produced by the source was dropped {} times, expected {} (skipped items must be destroyed, yielded ones handed over)", tag, id, d, want_d), &tag);
+            break;
+        }
+    }
+    drop(kept);
+    drop(kept_ref);
+    drop(src);
+    let (leaked, multi) = tracked::since(mark);
+    if !leaked.is_empty() || !multi.is_empty() {
+        rep.violation("C15:iterator-items", &format!("{}: leaked {:?} double-dropped {:?}", tag, leaked, multi), &tag);
+    }
+    rep.add("iterator_adapter_cases", 1);
+    rep.distinct(vmon::rng::mix(55_000 + n as u64 * 1000 + which as u64 * 50, k as u64));
+}
+
 pub fn run(args: &Args, rep: &mut Report) {
     let maxn = args.get("maxn", 7) as usize;
     let entries = [Entry::FeedInto, Entry::FeedIntoMut, Entry::Extend, Entry::Call];
@@ -298,6 +349,11 @@ pub fn run(args: &Args, rep: &mut Report) {
             }
             for kind in 0..4 {
                 collecting_case(n, kind, e, rep);
+            }
+        }
+        for which in 0..10 {
+            for k in 0..=n + 1 {
+                adapter_case(n, which, k, rep);
             }
         }
         for k in 0..=n + 1 {
